@@ -73,6 +73,15 @@ def _work(job):
         from pyvc.par import discharge_all
         # (after two undecided queries per worker the remaining ones get a short budget)
         discharge_all(obs, tmo, int(os.environ.get("PYVC_SUBPROCS", "1")))
+        # wall-clock budgets flip under machine load: the few obligations left open are retried with 4x the budget
+        # (a verdict is only ever taken from unsat/sat, so a retry can only turn `unknown` into a decision)
+        left = [o for o in obs if o.result == "unknown" and not getattr(o, "is_cover", False)]
+        if 0 < len(left) <= 6:
+            for o in left:
+                try:
+                    discharge(o, tmo * 4, use_cvc5=True)
+                except Exception as ex:  # noqa: BLE001
+                    o.result, o.reason = "unknown", f"solver crash: {type(ex).__name__}: {ex}"
         for o in obs:
             g = groups.setdefault(o.oid, {"oid": o.oid, "kind": o.kind, "descr": o.descr, "queries": 0, "result": "discharged",
                                           "backends": set(), "time": 0.0, "reason": "", "exact": True, "replay": None,
